@@ -26,6 +26,36 @@ CLAIMS["C18"] = dict(
     note=BASE_NOTE + "The OCPP role assignment and enumerations are represented by committed snapshots (expected/roles.json, expected/enums.json). Known findings: blocking SendRequest of client roles has no allow-list; securefirmware.FirmwareStatus exports three constants its validator rejects.",
     design="5/C18")
 
+DISP_NOTE = BASE_NOTE + "Quiescence granularity (events one at a time, goroutines run to quiescence); A-ID fresh ids; A-TIME timers; sub-quiescence interleavings are searched by the schedule monitors (disp_stress, disp_sched), whose findings on the unchanged tree are listed in known_findings.txt by kind and call site. "
+_D = dict(design="5")
+CLAIMS["C01"] = dict(technique="Lean 4 refinement proof (client dispatcher model to a specification monitor, all histories) + layered theorem for the callback matching + differential / specification-monitor runs on the real endpoints",
+    text="Proved: every well-formed history of the client endpoint model is accepted by the specification monitor (conclusions only for the outstanding / oldest waiting request, at most once, none for rejected requests, none after stop); the protocol layer's by-order callback matching delivers every conclusion to the request's own callback for every ocppj history the specification accepts (client roles, all histories). Validated, not proved: server model vs its per-client specification. Implementation tied by four differential suites (cdisp, sdisp, l3c, l3s: ocppj client/server and all four protocol endpoints on fake websockets) and by running the Lean specification monitors over every implementation history. Partial below quiescence (known findings S4/S5/S8).",
+    note=DISP_NOTE, **_D)
+CLAIMS["C02"] = dict(technique="Lean 4 refinement proof to a specification monitor whose `wrote` clause is the property; differential + monitor runs",
+    text="Proved for the client endpoint, all histories at quiescence granularity: a CALL is written only with nothing outstanding, it is the oldest accepted unwritten one, never while paused, hence at most once. Server: clause structure proved, refinement validated by monitor runs over model and implementation histories (C02_server_partial). Duplicate dispatch below quiescence (S8/S9/S10) is a known finding.",
+    note=DISP_NOTE, **_D)
+CLAIMS["C03"] = dict(technique="Lean 4 proof of the decision logic stated outright (all configurations, outcomes, strings) over regenerated guards and dispatch tables; exhaustive differential matrix on the real endpoints",
+    text="Proved: with a working connection exactly one reply, the one the property's table prescribes (handler response / handler's code / NotSupported / constraint-violation class by dialect / GenericError / InternalError; invalid handler codes fall back to GenericError); never more than one reply; the handler runs iff the action is known, its handler set and this role receives it; the valid-code set is exactly OCPP-J's; the regenerated action switches are coherent (asserted type = feature's request type, method in the profile's handler interface). The matrix (feature x outcome x handler x role x write) runs on fresh real endpoints against the model and an independent oracle.",
+    note=BASE_NOTE + "Handlers are generated stubs; concurrency between CALLs adds no shared state in the model (each CALL is answered from its own arguments).", **_D)
+CLAIMS["C07"] = dict(technique="Lean 4 invariant proof (no wedged / crashed quiescent state, progress clause) + schedule search on the implementation",
+    text="The full property is false of the code (deadlocks reproduced on the unchanged tree: known findings S11). Proved (C07_partial): for every history at quiescence granularity the client endpoint never wedges or panics, internal activity terminates, every quiescent state has the head written or the queue empty or is paused, and the ready channel is empty whenever the pump is parked. Progress is also a clause of the specification monitors run over every implementation history (client and server).",
+    note=DISP_NOTE, **_D)
+CLAIMS["C08"] = dict(technique="Lean 4 refinement proof (time-out clause) + closed-form lemma for the time-out step; differential with real short timeouts",
+    text="Proved (client, all histories): a time-out is reported only while time elapses, only for the outstanding request, never while paused, at most once and not after the reply; in every reachable state a time-out cancels exactly the outstanding request and writes the next queued CALL; a stale timer is harmless. Server: clause + instances, validated by monitors. Never-early rests on A-TIME; stale expiries below quiescence (S7/S8) are known findings.",
+    note=DISP_NOTE, **_D)
+CLAIMS["C09"] = dict(technique="Lean 4 proof by unfolding the regenerated pending-state guard, for every state (not only reachable ones); differential with foreign ids of all four classes",
+    text="Proved for every state of the client and server models and every reply whose id is not the id pending on that connection: the step returns the state unchanged and produces nothing, hence any following traffic (the genuine reply) is processed as if the frame had not arrived; handlers fire only for the outstanding request (specification clause).",
+    note=DISP_NOTE, **_D)
+CLAIMS["C10"] = dict(technique="Lean 4 refinement proof + closed-form lemmas for disconnect / send-while-paused / reconnect / outstanding-survives",
+    text="Proved on the client model: nothing is written while paused (all histories), a disconnect keeps queue and outstanding request, sends while paused append in order, reconnection resumes with the oldest unsent request, a request outstanding at the drop is still outstanding afterwards with a fresh time-out (cancelled exactly once by the next wait, or concluded by a late reply).",
+    note=DISP_NOTE + "The real ws.Client reconnect loop is C17's subject.", **_D)
+CLAIMS["C11"] = dict(technique="Lean 4 proofs for every state of the server model: reject-unknown, session-clean, no-leak, frame (non-interference of client records); per-client specification monitor on implementation histories",
+    text="Proved for every state: a send to a client without a live session is rejected with no effect; after a disconnect the client's record is the initial one and it has no timer; a later session with the same id starts from the initial per-client state; an event naming client c leaves every other client's record (queue, pending id, context) equal. The per-client specification (isolation by construction) runs over every implementation history of sdisp and l3s (with and without application handlers). Conclusion-on-disconnect happens in the protocol layer (fix b4d2189 made it unconditional).",
+    note=DISP_NOTE, **_D)
+CLAIMS["C16"] = dict(technique="Lean 4 proofs on the quiescent models (restart_fresh as a state equality, stop_is_silent, always_alive) + differential suites with stop/start at random points",
+    text="Proved: in every reachable state Stop returns, drops queue and outstanding request silently, afterwards sends are refused and replies/timers discarded; Stop then Start yields a state equal to a freshly started endpoint. Three defects found by this check were repaired (094ff1f, 68f3322, b4d2189). Partial: the websocket layer's reconnect token (S2) and Stop racing sends below quiescence (S12) are not covered by theorems.",
+    note=DISP_NOTE, **_D)
+
 NOT_YET = {}
 
 
